@@ -14,6 +14,12 @@ pub fn check(tier: Tier) -> Check {
         Part::new("C12/reconnect", json!({}), 0, tier.pick(45, 300)),
         // requests made before the connection that carries them exists
         Part::new("C12/early", json!({}), 0, 60),
+        // a Context that recorded a disconnection (hook H1): the new connection's limit binds the requests
+        // made on it - after an expired session as well as after a resumed one (15-byte publish, M = 14 / 15)
+        Part::new("C12/resumed", json!({"depth": 3, "expiry": 0, "secs_ago": 10, "m2": 14}), 0, 60),
+        Part::new("C12/resumed", json!({"depth": 3, "expiry": 1000, "secs_ago": 100000, "m2": 14}), 0, 60),
+        Part::new("C12/resumed", json!({"depth": 3, "expiry": 1000, "secs_ago": 10, "m2": 14}), 0, 60),
+        Part::new("C12/resumed", json!({"depth": 2, "expiry": 0, "secs_ago": 10, "m2": 15}), 0, 60),
         // the largest packet there is (268 435 460 bytes) against limits around 2^28 (run one at a time)
         Part::new("C12/giant", json!({"seq": true, "full": tier == Tier::Thorough}), 0, 300),
     ];
@@ -239,6 +245,9 @@ fn giant(name: String, params: Value) -> Scenario {
 }
 
 pub fn scenario(name: &str, params: &Value) -> Scenario {
+    if name == "C12/resumed" {
+        return super::c17::scenario_for("C12", name, params);
+    }
     if name == "C12/giant" {
         return giant(name.to_string(), params.clone());
     }
